@@ -416,6 +416,7 @@ Definition init_state (g : list tdesc) : state := mkState (init_tasks g) [] 0 fa
 (* what the driver observes after every event *)
 Record obs := mkObs {
   o_st : list status;            (* Task.Status of every task *)
+  o_wd : list status;            (* Task.WaitedStatus of every task (never set: Hold) *)
   o_run : list nat;              (* ids with a live tomb, ascending *)
   o_ready : bool;                (* Change.IsReady *)
   o_cst : status;                (* Change.Status *)
@@ -447,9 +448,9 @@ Definition status_of_code (c : N) : status :=
 Definition dec_sts (n : N) : list status := map status_of_code (tl (digits 60 n [])).
 Definition dec_set (n : N) : list nat := filter (fun i => N.testbit n (N.of_nat i)) (seq 0 64).
 Definition SR (t : N) (u : bool) (pre : N) (g fresh : bool) : start_rec := mkSR (N.to_nat t) u (dec_sts pre) g fresh.
-Definition OB (sts : N) (run : N) (rdy : bool) (cst : status) (rt : bool) (err failed : N)
+Definition OB (sts wds : N) (run : N) (rdy : bool) (cst : status) (rt : bool) (err failed : N)
               (pnc : bool) (starts : list start_rec) (hook : bool) : obs :=
-  mkObs (dec_sts sts) (dec_set run) rdy cst rt (dec_set err) (dec_set failed) pnc starts hook.
+  mkObs (dec_sts sts) (dec_sts wds) (dec_set run) rdy cst rt (dec_set err) (dec_set failed) pnc starts hook.
 Definition EEnsure (n : N) : event := Ensure (seq 0 (N.to_nat n)).
 Definition EFinish (t : N) (o : outcome) : event := Finish (N.to_nat t) o.
 Definition EResolve (t : N) : event := Resolve (N.to_nat t).
@@ -492,6 +493,7 @@ Definition new_starts (before after : state) : list start_rec :=
 
 Definition obs_mismatch (before after : state) (o : obs) : bool :=
   negb (list_eqb seqb (map t_st (tasks after)) (o_st o))
+  || negb (list_eqb seqb (map t_waited (tasks after)) (o_wd o))
   || negb (list_eqb Nat.eqb (sort_nat (running after)) (o_run o))
   || negb (Bool.eqb (cready after) (o_ready o))
   || negb (seqb (change_status (tasks after)) (o_cst o))
@@ -582,10 +584,18 @@ Fixpoint zip3_forall (f : nat -> status -> status -> bool) (i : nat) (a b : list
   | _, _ => false
   end.
 
+(* observed effective statuses (taskEffectiveStatus): a task in Wait counts by the status it waits for *)
+Fixpoint eff_vec (sts wds : list status) : list status :=
+  match sts, wds with
+  | x :: r, w :: q => (if seqb x Wait then w else x) :: eff_vec r q
+  | l, _ => l
+  end.
+Definition o_eff (o : obs) : list status := eff_vec (o_st o) (o_wd o).
+
 (* the healthy-lane exemption of ONE abortLanes call, stated on the statuses before the call: a task w voices an
    opinion on lane x when x comes, in w's own lane list, before any lane of the kill list; a lane task u is spared when
-   some lane of u outside the kill list has at least one opinion and only live (Do/Doing/Done) ones. A task in Wait
-   counts by the status it waits for, which is not observed: any such opinion excuses (never a false alarm). *)
+   some lane of u outside the kill list has at least one opinion and only live (Do/Doing/Done) ones. The statuses
+   are the EFFECTIVE ones (o_eff: a task in Wait counts by the observed Task.WaitedStatus), so the spec decides. *)
 Fixpoint opines (kill : list nat) (x : nat) (ls : list nat) : bool :=
   match ls with
   | [] => false
@@ -605,7 +615,7 @@ Definition spared_spec (g : list tdesc) (sts : list status) (kill : list nat) (u
           (lanes_g g u).
 
 (* statuses before/after an abort issued for [lanes] (handler error of task ft: Some ft) or for everything *)
-Definition abort_ok (g : list tdesc) (ft : option nat) (before after : list status) : bool :=
+Definition abort_ok (g : list tdesc) (ft : option nat) (before beff after : list status) : bool :=
   let ids := seq 0 (length g) in
   let '(seed, lanes) := match ft with
                         | Some t => ([], lanes_g g t)
@@ -613,29 +623,36 @@ Definition abort_ok (g : list tdesc) (ft : option nat) (before after : list stat
                         end in
   let R := upper_closure g seed lanes in
   let R' := lower_closure g seed lanes in
+  let NS := filter (fun u => lane_task g lanes u && negb (spared_spec g beff lanes u)) ids in
+  let A1 := iter_lower (S (length g)) g [] NS in
+  let nonnested := forallb (fun u => subset_b (lanes_g g u) lanes) A1 in
   zip3_forall (fun i o n =>
     match ft with
     | Some t => if Nat.eqb i t then seqb n Error
                 else (if memn i R then abort_map_ok o n else seqb o n)
                      && (if memn i R' then negb (seqb n Do || seqb n Doing || seqb n Done) else true)
                      (* a task of the failed task's lanes that the exemption does not spare is aborted *)
-                     && (if lane_task g lanes i then (if spared_spec g before lanes i then true else negb (live_st n))
+                     && (if lane_task g lanes i then (if spared_spec g beff lanes i then true else negb (live_st n))
                          else true)
+                     (* no nested abortLanes call (every task reached has all its lanes in the kill list): exactly the
+                        non-spared lane tasks and what transitively waits on them are touched; in particular a lane
+                        task the exemption spares, and its healthy lane, keep their statuses *)
+                     && (if nonnested && negb (memn i A1) then seqb o n else true)
     | None => abort_map_ok o n && (seqb o Wait || negb (seqb n Do || seqb n Doing || seqb n Done))
     end) 0 before after.
 
 Definition is_err (o : outcome) : bool := match o with OErr => true | _ => false end.
 
-Fixpoint abort_scan (g : list tdesc) (prev : list status) (evs : list (event * obs)) : bool :=
+Fixpoint abort_scan (g : list tdesc) (prev peff : list status) (evs : list (event * obs)) : bool :=
   match evs with
   | [] => true
   | (e, o) :: r =>
     (if o_panic o then true else
      match e with
-     | Finish t OErr => abort_ok g (Some t) prev (o_st o)
-     | UAbort => abort_ok g None prev (o_st o)
+     | Finish t OErr => abort_ok g (Some t) prev peff (o_st o)
+     | UAbort => abort_ok g None prev peff (o_st o)
      | _ => true
-     end) && abort_scan g (o_st o) r
+     end) && abort_scan g (o_st o) (o_eff o) r
   end.
 
 Definition last_obs (evs : list (event * obs)) : option obs :=
@@ -676,7 +693,7 @@ Fixpoint spared_scan (g : list tdesc) (final prev : list status) (evs : list (ev
                                 && negb (Nat.eqb u t)
                              then spared_spec g prev (lanes_g g t) u else true) (seq 0 (length g))
     | _ => true
-    end && spared_scan g final (o_st o) r
+    end && spared_scan g final (o_eff o) r
   end.
 
 Definition settle_ok (g : list tdesc) (evs : list (event * obs)) : bool :=
@@ -704,7 +721,7 @@ Definition monitor_fail01 (c : case) : bool :=
   negb (forallb (fun eo : event * obs =>
                    forallb (fun r : start_rec => if sr_undo r && sr_fresh r then forallb ready (sr_pre r) else true)
                            (o_starts (snd eo))) evs)
-  || negb (abort_scan g (map (fun _ => Do) g) evs)
+  || negb (abort_scan g (map (fun _ => Do) g) (map (fun _ => Do) g) evs)
   || negb (settle_ok g evs).
 
 (* C03: the reported change status is the documented aggregate of the task statuses (independent statement
